@@ -3,6 +3,8 @@ package c19
 import (
 	"errors"
 	"fmt"
+	"sort"
+	"strings"
 	"testing"
 	"time"
 
@@ -29,13 +31,26 @@ type sample struct {
 	Vars  string `json:"vars"`
 }
 
-func open(c *chains.Chain, dryRun, prepare, skipTx bool) *testdb.DB {
+// variation of the handle configuration and of where the operation runs
+type variation struct {
+	prepare, skipTx       bool
+	noReturning, noNested bool
+	queryFields, inTx     bool
+}
+
+func open(c *chains.Chain, dryRun bool, v variation) *testdb.DB {
 	d := testdb.Open(testdb.Options{
-		Config: gorm.Config{NowFunc: fixedNow, DryRun: dryRun, PrepareStmt: prepare, SkipDefaultTransaction: skipTx,
-			CreateBatchSize: c.ConfigBatchSize()},
-		NoReturning: c.CreatesFromMap(), // see C01: scanning RETURNING rows into []map fails after the statement was sent
+		Config: gorm.Config{NowFunc: fixedNow, DryRun: dryRun, PrepareStmt: v.prepare, SkipDefaultTransaction: v.skipTx,
+			CreateBatchSize: c.ConfigBatchSize(), QueryFields: v.queryFields, DisableNestedTransaction: v.noNested},
+		// Create from maps: see C01, scanning RETURNING rows into []map fails after the statement was sent
+		NoReturning: c.CreatesFromMap() || (v.noReturning && !c.Returning),
 	})
 	return d
+}
+
+// isSavepoint: transaction control sent as text (nested transactions use save points).
+func isSavepoint(text string) bool {
+	return strings.HasPrefix(text, "SAVEPOINT ") || strings.HasPrefix(text, "ROLLBACK TO ") || strings.HasPrefix(text, "RELEASE ")
 }
 
 type built struct {
@@ -66,8 +81,12 @@ func logOf(evs []recdrv.Event) string {
 	return s
 }
 
-func check(rt *rapid.T, c *chains.Chain, p *chains.Cond, mode string, prepare, skipTx bool) {
+func check(rt *rapid.T, c *chains.Chain, p *chains.Cond, mode string, v variation) {
+	prepare, skipTx := v.prepare, v.skipTx
 	desc := mode
+	if v.inTx {
+		desc += "+intx"
+	}
 	if prepare {
 		desc += "+prepare"
 	}
@@ -81,9 +100,9 @@ func check(rt *rapid.T, c *chains.Chain, p *chains.Cond, mode string, prepare, s
 	desc += " " + c.String()
 	evid.Journal(desc)
 
-	a := open(c, mode == "config", prepare, skipTx)
+	a := open(c, mode == "config", v)
 	defer a.Close()
-	b := open(c, false, prepare, skipTx)
+	b := open(c, false, v)
 	defer b.Close()
 	for _, d := range []*testdb.DB{a, b} {
 		if err := chains.Prepare(d.SQL); err != nil {
@@ -94,12 +113,29 @@ func check(rt *rapid.T, c *chains.Chain, p *chains.Cond, mode string, prepare, s
 	// exposes none of them: the statements a dry run builds are observed right after the
 	// executing callback of the Create pipeline instead.
 	var caps []built
-	if err := a.Callback().Create().After("gorm:create").Register("verif:capture", func(tx *gorm.DB) {
+	capFn := func(tx *gorm.DB) {
 		if tx.DryRun {
 			caps = append(caps, built{sql: tx.Statement.SQL.String(), vars: append([]interface{}(nil), tx.Statement.Vars...)})
 		}
-	}); err != nil {
-		rt.Fatalf("harness: %v", err)
+	}
+	for _, err := range []error{
+		a.Callback().Create().Before("gorm:save_after_associations").Register("verif:capture", capFn),
+		a.Callback().Query().After("gorm:query").Register("verif:capture", capFn),
+		a.Callback().Row().After("gorm:row").Register("verif:capture", capFn),
+	} {
+		if err != nil {
+			rt.Fatalf("harness: %v", err)
+		}
+	}
+	// inBlock runs fn inside an explicit Transaction block of db when the variation asks for it
+	inBlock := func(db *gorm.DB, fn func(tx *gorm.DB)) {
+		if !v.inTx {
+			fn(db)
+			return
+		}
+		if err := db.Transaction(func(tx *gorm.DB) error { fn(tx); return nil }); err != nil {
+			rt.Fatalf("C19 violated: the transaction block failed: %v\n  case: %s", err, desc)
+		}
 	}
 	plan := c.WithPrefix(p).Plan(chains.Mode{LiteralLimit: true, Now: fixedNow()})
 	handle := func(db *gorm.DB) *gorm.DB {
@@ -117,17 +153,21 @@ func check(rt *rapid.T, c *chains.Chain, p *chains.Cond, mode string, prepare, s
 	)
 	switch mode {
 	case "session":
-		dryTx = c.ApplyFrom(handle(a.DB).Session(&gorm.Session{DryRun: true, SkipDefaultTransaction: skipTx}), a.Session(&gorm.Session{DryRun: true}))
+		inBlock(a.Session(&gorm.Session{DryRun: true, SkipDefaultTransaction: skipTx}), func(tx *gorm.DB) {
+			dryTx = c.ApplyFrom(handle(tx), a.Session(&gorm.Session{DryRun: true}))
+		})
 	case "config":
-		dryTx = c.ApplyFrom(handle(a.DB), a.DB)
+		inBlock(a.DB, func(tx *gorm.DB) { dryTx = c.ApplyFrom(handle(tx), a.DB) })
 	default:
-		toSQL = handle(a.DB).ToSQL(func(tx *gorm.DB) *gorm.DB {
-			root := tx
-			if p != nil {
-				root = a.DB // nested pieces (sub-queries, groups) start from a clean handle
-			}
-			dryTx = c.ApplyFrom(tx, root)
-			return dryTx
+		inBlock(a.DB, func(outer *gorm.DB) {
+			toSQL = handle(outer).ToSQL(func(tx *gorm.DB) *gorm.DB {
+				root := tx
+				if p != nil || v.inTx {
+					root = a.DB // nested pieces (sub-queries, groups) start from a clean handle
+				}
+				dryTx = c.ApplyFrom(tx, root)
+				return dryTx
+			})
 		})
 	}
 	dryErr := dryTx.Error
@@ -135,6 +175,11 @@ func check(rt *rapid.T, c *chains.Chain, p *chains.Cond, mode string, prepare, s
 	dry := []built{exposed}
 	dryAt := plan.DryAt[len(plan.DryAt)-1:]
 	if plan.Hidden {
+		// statements built on handles the caller never sees: the last ones the pipelines built
+		// (nested sub-queries are rendered before their outer statement)
+		if len(caps) > len(plan.DryAt) {
+			caps = caps[len(caps)-len(plan.DryAt):]
+		}
 		dry, dryAt = caps, plan.DryAt
 	}
 	dryLog := driverCalls(a.Rec.Events())
@@ -147,6 +192,12 @@ func check(rt *rapid.T, c *chains.Chain, p *chains.Cond, mode string, prepare, s
 	if skipTx {
 		classes = append(classes, "skip-default-transaction")
 	}
+	for name, on := range map[string]bool{"config:no-returning": v.noReturning, "config:query-fields": v.queryFields, "config:no-nested-tx": v.noNested, "in-transaction": v.inTx} {
+		if on {
+			classes = append(classes, name)
+		}
+	}
+	sort.Strings(classes)
 	if p != nil {
 		classes = append(classes, "stateful-handle")
 	}
@@ -163,9 +214,15 @@ func check(rt *rapid.T, c *chains.Chain, p *chains.Cond, mode string, prepare, s
 
 	// ---- real run on B
 	b.Rec.Reset()
-	realTx := c.ApplyFrom(handle(b.DB), b.DB)
+	var realTx *gorm.DB
+	inBlock(b.DB, func(tx *gorm.DB) { realTx = c.ApplyFrom(handle(tx), b.DB) })
 	realLog := driverCalls(b.Rec.Events())
-	stmts := b.Rec.Statements()
+	var stmts []recdrv.Event
+	for _, e := range b.Rec.Statements() {
+		if !isSavepoint(e.Text) {
+			stmts = append(stmts, e)
+		}
+	}
 
 	fail := func(format string, args ...interface{}) {
 		shown := ""
@@ -177,7 +234,7 @@ func check(rt *rapid.T, c *chains.Chain, p *chains.Cond, mode string, prepare, s
 	}
 
 	// the dry run sends nothing
-	if dryErr != nil && !(c.Fin == "scan" && errors.Is(dryErr, gorm.ErrDryRunModeUnsupported)) {
+	if dryErr != nil && !((c.Fin == "scan" || c.Fin == "rows") && errors.Is(dryErr, gorm.ErrDryRunModeUnsupported)) {
 		fail("the dry run failed: %v", dryErr)
 	}
 	for _, e := range dryLog {
@@ -186,13 +243,16 @@ func check(rt *rapid.T, c *chains.Chain, p *chains.Cond, mode string, prepare, s
 			fail("the dry run sent a statement to the driver: %s", e)
 		}
 	}
-	if mode == "tosql" && len(dryLog) > 0 {
+	if v.inTx {
+		// the caller's own transaction block is the only thing that may reach the driver
+		if len(dryLog) != 2 || dryLog[0].Kind != recdrv.Begin || dryLog[1].Kind != recdrv.Commit {
+			fail("a dry run inside a Transaction block made driver calls besides the block's BEGIN and COMMIT")
+		}
+	} else if mode == "tosql" && len(dryLog) > 0 {
 		fail("ToSQL made %d driver call(s)", len(dryLog))
-	}
-	if skipTx && len(dryLog) > 0 {
+	} else if skipTx && len(dryLog) > 0 {
 		fail("a dry run with SkipDefaultTransaction made %d driver call(s)", len(dryLog))
-	}
-	if !c.Write() && len(dryLog) > 0 {
+	} else if !c.Write() && len(dryLog) > 0 {
 		fail("a dry read made %d driver call(s)", len(dryLog))
 	}
 	if len(dryLog) > 0 {
@@ -265,6 +325,11 @@ func TestC19(t *testing.T) {
 		if rapid.Bool().Draw(rt, "stateful") {
 			p = chains.GenPrefix(rt, cfg, c)
 		}
-		check(rt, c, p, mode, prepare, skipTx)
+		v := variation{prepare: prepare, skipTx: skipTx,
+			noReturning: rapid.IntRange(0, 3).Draw(rt, "noreturning") == 0,
+			queryFields: rapid.IntRange(0, 4).Draw(rt, "queryfields") == 0,
+			noNested:    rapid.Bool().Draw(rt, "nonested"),
+			inTx:        rapid.IntRange(0, 3).Draw(rt, "intx") == 0}
+		check(rt, c, p, mode, v)
 	})
 }
